@@ -165,7 +165,7 @@ def main(argv=None):
     blocks = a.blocks or blocks
     runs = a.runs or runs
     sweep_scratch()
-    outdir = os.path.join(ROOT, "replays")
+    outdir = os.environ.get("VERIF_REPLAY_DIR") or os.path.join(ROOT, "replays")
     os.makedirs(outdir, exist_ok=True)
     for f in os.listdir(outdir):  # leftovers of an earlier batch with the same seed
         if f.startswith(f"STOP-{prop}-{seed}") or f.startswith(f"{prop}-{seed}-"):
